@@ -10,6 +10,8 @@ import (
 	"sort"
 	"strconv"
 	"strings"
+	"sync"
+	"time"
 
 	"github.com/confluentinc/confluent-kafka-go/kafka"
 
@@ -32,6 +34,7 @@ func genTracker(r *rng, n int, tier string, emit func(string)) {
 		"add 0 1 5 ; recvbad 0 ; get 0 ; recv x 4:8 ; get 0",
 		"add 0 5 5 ; add 0 5 6 ; add 0 0 4 ; add 0 4 5",
 		"add 0 10 20 ; add 0 40 50 ; add 0 0 100 ; done 0 100 ; get 0",
+		"add 0 1 5 ; padd 0 10 20 30 40 ; get 0 ; padd 1 3 4 3 9",
 	} {
 		emit(c)
 	}
@@ -70,7 +73,12 @@ func genTracker(r *rng, n int, tier string, emit func(string)) {
 					t = f - 1 // ill-formed: out of scope, correspondence only
 				}
 				tos = append(tos, t)
-				ops = append(ops, fmt.Sprintf("add %d %d %d", p, f, t))
+				if r.chance(3) && t >= f {
+					f2 := rngv()
+					ops = append(ops, fmt.Sprintf("padd %d %d %d %d %d", p, f, t, f2, f2+r.pick(0, 1, 4, 9)))
+				} else {
+					ops = append(ops, fmt.Sprintf("add %d %d %d", p, f, t))
+				}
 			case x < 55:
 				t := rngv()
 				if len(tos) > 0 && r.chance(75) {
@@ -199,6 +207,31 @@ func execTracker(input string) string {
 		switch f[0] {
 		case "add":
 			outs = append(outs, res(a.AddRecoveryRequest(int32(pi(1)), pi(2), pi(3))))
+		case "padd":
+			// two requests for one partition filed concurrently; the first caller's broadcast stalls in the transport
+			ctx.mu.Lock()
+			ctx.stallNext = true
+			ctx.mu.Unlock()
+			var wg sync.WaitGroup
+			var e1, e2 error
+			wg.Add(2)
+			go func() { defer wg.Done(); e1 = a.AddRecoveryRequest(int32(pi(1)), pi(2), pi(3)) }()
+			time.Sleep(2 * time.Millisecond)
+			go func() { defer wg.Done(); e2 = a.AddRecoveryRequest(int32(pi(1)), pi(4), pi(5)) }()
+			wg.Wait()
+			sent := ctx.sent[before:]
+			for i, e := range []error{e1, e2} {
+				r := "ok "
+				if e != nil {
+					r = "err "
+				}
+				if i < len(sent) {
+					r += fmtBcasts(sent[i : i+1])
+				} else {
+					r += fmtBcasts(nil)
+				}
+				outs = append(outs, r)
+			}
 		case "upd":
 			outs = append(outs, res(a.UpdateRecoveryRequest(int32(pi(1)), pi(2), pi(3))))
 		case "done":
